@@ -1,6 +1,7 @@
 fn emit_global_declarations(
     globals: &[GlobalVariable],
     list_decls: &[ListDeclaration],
+    context: &EmitContext,
 ) -> Result<EmittedContainer, CompilerError> {
     let mut container = EmittedContainer::default();
     container.push(json!("ev"));
@@ -26,7 +27,14 @@ fn emit_global_declarations(
     }
 
     for global in globals {
-        emit_expression(&global.initial_value, &mut container.content);
+        // with the emit context, so that list items in an initialiser such as
+        // `VAR x = (red)` are resolved to their list and value like anywhere else
+        emit_expression_ctx(
+            &global.initial_value,
+            &mut container.content,
+            Some(context),
+            None,
+        );
         container.push(json!({ "VAR=": global.name }));
     }
 
